@@ -10,7 +10,11 @@ Definition all_regexes : list (str * cre) :=
   regex_table ++ [($"quotesRe(default)", quotesRe quotes_default); ($"unescapeRe(default)", unescapeRe quotes_default)].
 
 (* the first Block Attributes pattern is the deliberate exception (nested quantifier, matched on its own) *)
-Definition star_height_exceptions : list str := [$"re_blockattributes_parse_0"].
+Definition star_height_exceptions : list str :=
+  [$"re_blockattributes_parse_0";
+   (* the scans for an existing class / id / style attribute step over quoted attribute values: (?:[^>"]|"[^"]*")*? --
+      the two alternatives start with different characters (C02_exclusive_alternatives), so the loop has one history *)
+   $"re_blockattributes_injectHtmlAttributes_0"; $"re_blockattributes_injectHtmlAttributes_1"; $"re_blockattributes_injectHtmlAttributes_2"].
 
 Theorem star_height_le_1 :
   forallb (fun nr => Nat.leb (star_height (re_ast (snd nr))) 1 || mem (fst nr) star_height_exceptions) all_regexes = true.
